@@ -583,16 +583,22 @@ def fam_torn(rng, tier, i, no_marker=True):
     p = rng.choice([0, 1, 2, 3, 4, 5, 8])
     n = rng.choice([1, 2, 3, 4, 6])
     multi = rng.random() < 0.35      # several whole sections lost while the index still lists them; the lost lines are appended again
+    stale = i % 7 == 4               # directed: several sections lost, index intact, then one line close behind a full time the index may still list
+    multi = multi or stale
     if multi:
         n = rng.choice([3, 4, 6])
+    if stale:
+        n = 6
     lines = mk_lines(rng, p, n, shape="sparse" if multi else rng.choice(["mixed", "sparse", "edge", "jitter"]), no_marker=no_marker)
+    if stale and lines[-1][0] + 65536 >= U64:
+        lines = mk_lines(rng, p, n, shape="sparse", base=rng.choice([3, 1000, 2**33]), no_marker=no_marker)
     region = len(encode(p, lines))
     s = [new_line("t", p)] + push_lines(lines) + ["close"]
     cycles = 1 if tier == "quick" else rng.choice([1, 2, 3])
     for c in range(cycles):
         r0 = rng.random()
         if multi and c == 0:
-            cut_back = min(region, rng.randrange(2, max(3, len(lines))) * (K(p) + 1) * (p + 2) + rng.randrange(0, (K(p) + 1) * (p + 2)))
+            cut_back = min(region, rng.randrange(2, 5 if stale else max(3, len(lines))) * (K(p) + 1) * (p + 2) + rng.randrange(0, (K(p) + 1) * (p + 2)))
         elif r0 < 0.6:
             cut_back = rng.randrange(0, min(region, (K(p) + 3) * (p + 2)) + 1)
         elif r0 < 0.8:
@@ -603,6 +609,7 @@ def fam_torn(rng, tier, i, no_marker=True):
         # know the header length, so cuts are expressed relative to the end with fs_cut
         s.append("fs_cut data:t %d" % cut_back)
         st = rng.random() * (0.5 if multi and c == 0 else 1.0)
+        if stale and c == 0: st = 0.0
         if st < 0.35:
             pass                                   # index intact (ahead of the data, possibly by several entries)
         elif st < 0.5:
@@ -618,13 +625,25 @@ def fam_torn(rng, tier, i, no_marker=True):
         s.append(open_line("t"))
         repush = c == 0 and (multi or rng.random() < 0.5)
         first = repush and rng.random() < 0.5
+        if stale and c == 0: first = True
         if first:
             # append again what the crash may have taken, right after the open (before any accessor could trip over a wrong
             # index): the lines that survived are refused (not newer than the last one), the lost ones are accepted -
             # whatever the index file claimed before the repair (C03 across tail repairs)
-            s += push_lines(lines)
+            if stale and len(lines) >= 2 and lines[-2][0] + 65534 < U64:
+                # not the lost lines but one newer line whose time lies within a 16 bit distance behind a full timestamp the
+                # index may still list although its section is gone: it must start a section of its own
+                s += ["push %d %s" % (lines[-2][0] + rng.choice([0, 1, 100, 65534]), hexb(payload(rng, p)))]
+            else:
+                s += push_lines(lines)
         s += ["read_all u u", "len", "range", "last_line"]
-        if repush and not first:
+        if repush and not first and multi and len(lines) >= 2 and rng.random() < 0.5:
+            # not the lost lines but one newer line whose time lies within a 16 bit distance behind a full timestamp the
+            # index may still list although its section is gone: it must start a section of its own
+            t_st = lines[-2][0] + rng.choice([0, 1, 100, 65534])
+            if t_st < U64:
+                s += ["push %d %s" % (t_st, hexb(payload(rng, p))), "read_all u u", "range"]
+        elif repush and not first:
             s += push_lines(lines) + ["range", "len"]
         t_new = (lines[-1][0] if lines else 0) + rng.choice([1, 65534, 65535, 10**6]) + c * 10**7
         if t_new < U64:
@@ -842,6 +861,24 @@ def fam_caches_reopen(rng, tier, i):
     return fam_caches(rng, tier, i, reopen=True)
 
 def fam_caches_faults(rng, tier, i):
+    if i % 6 == 3:
+        # a cache that ran ahead of a torn source whose last surviving line carries exactly the time of the last line in the
+        # cache (the floored mean of the last cached bucket): evenly spaced lines, the tear takes the lines behind the middle
+        # one of the last full bucket (and may end inside the line that follows the survivor)
+        p = rng.choice([0, 1, 2, 4])
+        B = rng.choice([2, 3, 3, 4, 5, 7])
+        step = 1 if B % 2 == 0 else rng.choice([1, 7, 100])
+        m = rng.choice([2, 3, 5])
+        base = rng.choice([10, 1000, 2**40])
+        L = p + 2
+        lost = (B - 1) - (B - 1) // 2                       # lines behind the one whose time is the floored mean
+        cut_back = lost * L - rng.choice([0, 0, 1, L - 1]) if lost else 0
+        Bs = (B,) if rng.random() < 0.6 else tuple(sorted({B, rng.choice([1, 2, 10])}))
+        s = [new_line("c", p, b"", Bs), "pushseq %d %d %d %d" % (base, step, B * m, rng.randrange(256)), "close",
+             "fs_cut data:c %d" % max(cut_back, 1), open_line("c", "any", "any", Bs), "len", "read_all u u", "read_n 2 u u",
+             "pushseq %d %d %d %d" % (base + step * B * m + 5, step, 2 * B, rng.randrange(256)), "read_n 3 u u", "close",
+             open_line("c", "any", "any", Bs), "len", "close", "dump"]
+        return {"family": "caches_faults", "lines": s, "tags": {"p%d" % p, "caches", "level_with_torn_source"}}
     return fam_caches(rng, tier, i, reopen=True, faults=True)
 
 def fam_cache_sections(rng, tier, i):
